@@ -194,6 +194,12 @@ class GetPrefixTrait(CContract):
                ("post:the-borrowed-result-is-backed-by-a-trait-dictionary-of-the-object", z3.Implies(ret != NULL, z3.Or(
                    A.dict_arr(st)[cd][name] == ret,
                    z3.And(ex.field_array(st, "itrait_dict")[obj] != NULL, A.dict_arr(st)[ex.field_array(st, "itrait_dict")[obj]][name] == ret))))]
+        # C13 over histories: the class-trait dictionary is what subclasses defined LATER copy their inherited traits from
+        # (MetaHasTraits); a trait resolved for an undeclared name is not a declaration and must not end up there
+        sets = [r for r in st.trace if r[0] == "dict-set"]
+        cd0 = ex.field_array(CSt(), "ctrait_dict")[obj]
+        out.append(("frame:resolving-an-undeclared-name-adds-no-declaration-to-the-class", z3.And(*[r[1] != cd0 for r in sets]) if sets else z3.BoolVal(True),
+                    dict(note="the resolved trait is cached in the class-trait dictionary, which later subclasses inherit"), ("C13",)))
         if st.own is not None:
             o = z3.Const("o!own", Obj)
             out.append(("own:reference-neutral-the-result-is-borrowed", z3.ForAll([o], st.own[o] == info["own0"][o]), {}, ("C18",)))
